@@ -17,7 +17,9 @@ TECHNIQUE = (
     "is not an Exception) and by killing a "
     "forked child with os._exit - and the directory is inspected against the old/new reference bytes; file-system points are "
     "additionally hit with EXDEV/EBUSY/EACCES (raised as the OSError subclass Python maps the errno to) followed by a second fault (exception, crash) at every effect point of the recovery path; "
-    "copies performed through shutil are executed stepwise (truncate / half / rest) so that their middle is a crash point"
+    "copies performed through shutil are executed stepwise (truncate / half / rest) so that their middle is a crash point; "
+    "one fault that is not a file-system fault is generated too: the caller keeps an array view of an external tensor that reads "
+    "from the destination, so that its mapping cannot be closed when the file is to be replaced"
 )
 LEVEL_TEXT = (
     "Exhaustive over the Python-visible effect points of each generated configuration (both failure modes), sampled "
@@ -47,7 +49,7 @@ def strategy(tier, phase):
     return st.fixed_dictionaries({
         "tensors": st.lists(t, min_size=1, max_size=4), "pre": st.integers(0, 3), "shard": st.sampled_from([None, None, None, 64, 200]),
         "workers": st.sampled_from([None, None, 1, 2]), "threshold": st.sampled_from([0, 0, 16]), "callback": st.booleans(),
-        "dest": st.sampled_from(["m.data", "sub/w.bin"]),
+        "dest": st.sampled_from(["m.data", "sub/w.bin"]), "hold": st.sampled_from([None, 0, 1, 2]),
     })
 
 
@@ -384,6 +386,48 @@ def execute(case):
                         break
                 if len(fails) > 6:
                     break
+        # ---- a fault that is not a file-system fault: the caller still holds an array view of a tensor that reads from
+        # the destination, so its mapping cannot be closed (BufferError) when the file is about to be replaced
+        if not sharded and info["ext_same"] and case.get("hold") is not None and len(fails) <= 6:
+            wdh = os.path.join(root, "hold")
+            os.makedirs(wdh)
+            inj_h = [None]
+            m3, info3 = setup(case, wdh, inj_h)
+            th, _ = info3["ext_same"][case["hold"] % len(info3["ext_same"])]
+            view = th.numpy()
+            before3 = listing(wdh)
+            raised = None
+            evals += 1
+            try:
+                do_save(case, m3, wdh, None)
+            except Exception as e:
+                raised = e
+            after3 = listing(wdh)
+            classes.add("array_view_of_overwritten_tensor_held:" + ("save_raised" if raised is not None else "save_succeeded"))
+            keys.append("hold")
+            if raised is None:
+                if after3 != after_ok:
+                    bad = sorted(kf for kf in set(after3) | set(after_ok) if after3.get(kf) != after_ok.get(kf))
+                    fails.append(("held-view/incomplete-save", f"save with a held array view returned, yet the directory differs from a successful save in {bad[:4]}"))
+            else:
+                kind_ = type(raised).__name__
+                if after3.get(dest_rel) != before3.get(dest_rel):
+                    fails.append((f"held-view/destination-changed-on-failure/{kind_}", f"save raised {kind_} (held array view of {th.name}) but the destination was replaced"))
+                leftovers = sorted(set(after3) - set(before3))
+                if leftovers:
+                    fails.append((f"held-view/temporary-left-behind/{kind_}", f"save raised {kind_} (held array view): {leftovers} remain"))
+                for t, data in info3["ext_same"]:
+                    try:
+                        if not t.valid() or bytes(t.tobytes()) != data:
+                            fails.append((f"held-view/external-tensor-damaged-on-failure/{kind_}", f"save raised {kind_}: external tensor {t.name} reading from the destination is invalid or returns different bytes"))
+                    except Exception as e:
+                        fails.append((f"held-view/external-tensor-damaged-on-failure/{kind_}", f"save raised {kind_}: reading {t.name} raised {type(e).__name__}: {e}"[:250]))
+            del view
+            for t, _ in info3["ext_same"]:
+                try:
+                    t.release()
+                except Exception:
+                    pass
         classes.add(f"points={min(len(points) // 10 * 10, 40)}+")
     finally:
         shutil.rmtree(root, ignore_errors=True)
